@@ -252,7 +252,22 @@ func runC11Driver(c bson.D, x *Ctx) (err error) {
 			return e
 		}
 		if uerr2 != nil {
-			return fmt.Errorf("second application of an accepted idempotent update was rejected: %v", uerr2)
+			// with several paths one operator's first effect can turn another
+			// operator's target into something it rejects ({$pullAll: {"a.0":
+			// []}, $set: {"a.1": 0}} on {a: []}); the update is then rejected
+			// as a whole, which still "changes nothing"
+			npaths := 0
+			for _, oe := range upd {
+				npaths += len(asD(oe.Value))
+			}
+			if npaths < 2 {
+				return fmt.Errorf("second application of an accepted idempotent update was rejected: %v", uerr2)
+			}
+			if !bytesEq(after2[0], after[0]) {
+				return fmt.Errorf("second application of %s was rejected (%v) but changed the document: %s -> %s", show(upd), uerr2, show(after[0]), show(after2[0]))
+			}
+			x.Class("idempotence-second-application-rejected")
+			return nil
 		}
 		if !bytesEq(after2[0], after[0]) {
 			return fmt.Errorf("second application of %s changed the document again: %s -> %s", show(upd), show(after[0]), show(after2[0]))
